@@ -124,6 +124,12 @@ def encode_order(rng, cls):
     n = len(cls)
     k = max(cls) + 1
     style = rng.choice(["none?", "int", "int", "float", "mixed", "neg", "big", "bool?", "scores", "scores_f", "scores_neg", "frac", "bigint"])
+    if style == "frac" and k == n and n >= 3 and rng.random() < 0.6:
+        j = 1 + rng.randrange(n - 2)
+        d = rng.choice([-0.5, 0.5, -0.25])
+        if rng.random() < 0.5:
+            return {"ranks": [(c + d if c == j else c) + rng.choice([0, 1]) for c in cls]}, "gapless"
+        return {"scores": [(n - c + d if c == j else n - c) for c in cls]}, "gapless"
     if style == "bigint" and rng.random() < 0.3:
         if rng.random() < 0.5:
             return {"scores": [1e17 if c == 0 else float(2 * k - c) for c in cls]}, "widerange"
@@ -396,6 +402,13 @@ def all_encodings(rng, cls):
     encs.append({"ranks": [(c + 1) * 1e15 for c in cls]})
     encs.append({"ranks": [(c + 1) * 10**12 for c in cls]})
     encs.append({"ranks": [9007199254740992.0 + 2.0 * c for c in cls]})
+    # distinct values spanning exactly n - 1 with one fractional value (a gapless-looking run that is not one)
+    if k == n and n >= 3:
+        j = 1 + (sum(cls) % (n - 2))
+        encs.append({"ranks": [(c - 0.5 if c == j else c) for c in cls]})
+        encs.append({"ranks": [(c + 0.5 if c == j else c) + 1 for c in cls]})
+        encs.append({"scores": [(n - c + 0.5 if c == j else n - c) for c in cls]})
+        encs.append({"ranks": [float(c) if c != j else c - 0.25 for c in cls]})
     # wide dynamic range: one huge value beside small distinct ones (differences against the extreme collapse in doubles)
     encs.append({"scores": [1e17 if c == 0 else float(2 * k - c) for c in cls]})
     encs.append({"ranks": [-1e17 if c == 0 else float(c) for c in cls]})
@@ -414,6 +427,9 @@ def all_encodings(rng, cls):
     encs.append({"scores": [(-c if i % 2 else -float(c)) for i, c in enumerate(cls)]})
     encs.append({"scores": [100 - 7 * c for c in cls]})
     encs.append({"scores": [0.5 - c * 0.125 for c in cls]})
+    if k <= 3:
+        encs.append({"ranks": [_Place(c + 1) for c in cls]})                      # int subclass values
+    encs.append({"ranks": [_Seconds(c * 1.5 + 9.0) for c in cls]})               # float subclass values
     if k <= 2:
         encs.append({"ranks": [bool(c) for c in cls]})
         encs.append({"scores": [not bool(c) for c in cls]})
@@ -610,7 +626,20 @@ def scale_groups(sess, rng, count, kinds=KINDS):
                 sess.rate(base, make_teams(base, vals), group=gid, role="base", **okw)
             else:
                 sess.predict(op, base, make_teams(base, vals), group=gid, role="base")
-            for k in rng.sample(ks, 3):
+            for ki_, k in enumerate(rng.sample(ks, 3)):
+                if ki_ == 2:
+                    # the used model object itself is rescaled by assigning its public attributes (and put back afterwards)
+                    saved = (base.m.mu, base.m.sigma, base.m.beta, base.m.tau)
+                    for a_, v_ in zip(("mu", "sigma", "beta", "tau"), saved):
+                        sess.set_model_attr(base, a_, v_ * k)
+                    sv = [[(mu * k, sg * k) for (mu, sg) in tv] for tv in vals]
+                    if op == "rate":
+                        sess.rate(base, make_teams(base, sv), group=gid, role="scaled", aux=[k], **okw)
+                    else:
+                        sess.predict(op, base, make_teams(base, sv), group=gid, role="scaled", aux=[k])
+                    for a_, v_ in zip(("mu", "sigma", "beta", "tau"), saved):
+                        sess.set_model_attr(base, a_, v_)
+                    continue
                 mk = sess.model(kind, gamma=g, mu=base.m.mu * k, sigma=base.m.sigma * k, beta=beta * k, tau=tau * k,
                                 limit_sigma=lim, kappa=base.m.kappa)
                 sv = [[(mu * k, sg * k) for (mu, sg) in tv] for tv in vals]
@@ -632,6 +661,20 @@ def scale_groups(sess, rng, count, kinds=KINDS):
                         sess.predict(op, base, make_teams(base, shv), group=gid, role="shifted", aux=[d])
 
 
+import enum as _enum
+
+
+class _Place(_enum.IntEnum):
+    """Placements as an int subclass (isinstance(x, int) holds)."""
+    FIRST = 1
+    SECOND = 2
+    THIRD = 3
+
+
+class _Seconds(float):
+    """Finish times as a float subclass."""
+
+
 def outcome_groups(sess, rng, count, kinds=KINDS):
     """C05: two-team games under win/draw/loss; swaps of places in games without ties."""
     for _ in range(count):
@@ -648,7 +691,10 @@ def outcome_groups(sess, rng, count, kinds=KINDS):
                 vals[0][j] = (20 * beta * rng.choice([-1, 1]) * rng.uniform(0.5, 1), vals[0][j][1])
         gid = GID.new("C05", "out")
         enc = rng.choice([("ranks", [0, 1], [0, 0], [1, 0]), ("ranks", [1.0, 2.0], [3, 3.0], [2, 1]),
-                          ("scores", [5, 1], [2, 2], [0, 7]), ("ranks", [-1, 0], [0.0, 0], [4, 3])])
+                          ("scores", [5, 1], [2, 2], [0, 7]), ("ranks", [-1, 0], [0.0, 0], [4, 3]),
+                          ("ranks", [False, True], [False, False], [True, False]), ("ranks", [False, True], [True, True], [True, False]),
+                          ("ranks", [_Place(1), _Place(2)], [_Place(2), _Place(2)], [_Place(3), _Place(1)]),
+                          ("ranks", [_Seconds(9.5), _Seconds(11.0)], [_Seconds(9.5), _Seconds(9.5)], [_Seconds(12.0), 10.0])])
         sel, win, draw, loss = enc
         sess.rate(mh, make_teams(mh, vals), group=gid, role="base", **{sel: win})
         sess.rate(mh, make_teams(mh, vals), group=gid, role="draw", **{sel: draw})
@@ -695,6 +741,10 @@ def predict_relations(sess, rng, count, kinds=KINDS):
             v2 = [list(tv) for tv in vals]
             v2[i][j] = (mu1, vals[i][j][1])
             sess.predict("win", mh, make_teams(mh, v2), group=gid, role="inc", aux=[i + 1, j + 1])
+        if rng.random() < 0.3:
+            # the live model is reconfigured between predictions (public attribute): later answers must follow
+            sess.predict("rank", mh, make_teams(mh, vals))
+            sess.set_model_attr(mh, "beta", mh.m.beta * rng.choice([0.5, 2.0]))
         # C11: rank + draw
         gid = GID.new("C11", "sum")
         sess.predict("rank", mh, make_teams(mh, vals), group=gid, role="base")
@@ -864,7 +914,12 @@ def object_campaign(sess, rng, count, kinds=KINDS):
             sess.assign(a, m2, a.sigma)
             sess.ordinal(a)
             sess.compare(rng.choice(["lt", "le", "gt", "ge"]), a, b)
-            sess.assign(a, a.mu, -2.0 if a.sigma == -1.0 else a.sigma + 0.5)
+            sess.assign(a, a.mu, -2.0 if a.sigma == -1.0 else a.sigma + 0.5)      # sigma alone changes
+            sess.compare(rng.choice(["lt", "le", "gt", "ge"]), a, b)
+            sess.compare(rng.choice(["lt", "le", "gt", "ge"]), b, a)
+            sess.assign(a, a.mu, a.sigma + 40.0)
+            sess.compare("lt", a, b)
+            sess.compare("gt", a, b)
             sess.ordinal(a, z=2)
             sess.ordinal(a)
             sess.sort([a, b, mh.m.rating(a.mu, a.sigma)])
@@ -895,6 +950,15 @@ def object_campaign(sess, rng, count, kinds=KINDS):
             gid = GID.new("C19", "cmpf")
             for i, m2 in enumerate([mh] + others):
                 sess.compare(cop, m2.m.rating(*va), fop, group=gid, role="same" if i else "base")
+        # the same structure copied on every class: a snapshot (same id) beside its live twin with other values
+        import copy as _copy2
+        gid = GID.new("C19", "copy")
+        for i, m2 in enumerate([mh] + others):
+            live_ = m2.m.rating(21.5, 4.25, "twin")
+            live_.id = "c19-copy-twin-id"
+            snap_ = _copy2.deepcopy(live_)
+            live_.mu, live_.sigma = 23.0, 3.5
+            sess.deepcopy([[snap_, live_], [live_, snap_], snap_], group=gid, role="same" if i else "base")
         # hashes: equal for equal (id, mu, sigma), across copies and classes
         gid = GID.new("C19", "hash")
         import copy as _copy
@@ -970,6 +1034,7 @@ def bad_values(mh, foreign_mh, own):
         ("set", {1}), ("obj", _Opaque()), ("empty_list", []), ("nested_list", [[1], [2]]),
         ("foreign", foreign_mh.m.rating(20.0, 5.0)), ("own_rating", own), ("list_of_rating", [mh.m.rating(21.0, 4.0)]),
         ("true", True), ("neg", -2), ("zero_f", -0.0),
+        ("numstr", "2"), ("numstr_f", "7.5"), ("bytes", b"4"),
     ]
 
 
